@@ -29,3 +29,14 @@ Theorem C11_mdelete_atomic :
 Proof. exact mdelete_atomic. Qed.
 Print Assumptions C11_mdelete_atomic.
 
+(** a micro schedule whose calls are not overtaken (each call's micro steps run back to back; in between, any
+   events of the window model) reaches exactly the states of the window model with those calls as atomic events; together
+   with [atomic_schedule_refines] (Window.v without overtaking = Model.v) every theorem about Model.v transfers *)
+Theorem C11_micro_schedule_refines :
+  forall cfg ces ms,
+  cps ms = [] -> wdel ms = None -> adm_run cfg ms ces ->
+  win (fold_left (cstep_m cfg) ces ms) = fold_left (cstep_w cfg) ces (win ms) /\
+  cps (fold_left (cstep_m cfg) ces ms) = [] /\ wdel (fold_left (cstep_m cfg) ces ms) = None.
+Proof. exact micro_schedule_refines. Qed.
+Print Assumptions C11_micro_schedule_refines.
+
